@@ -383,6 +383,7 @@ func init() {
 	engines["explore"] = &Engine{
 		Header:   "From KV Require Import Base.Util Base.AMap Model.Coordinator Model.Explore Model.ExploreCheck.",
 		CaseType: "x_case", Agree: "explore_agree", PropOk: "c20_case",
+		Extra:    map[string]string{"c20rest": "c20_rest_case"},
 		Gen: exploreGen, New: func() interface{} { return &xCase{} }, Run: exploreRun, Parallel: 12,
 	}
 }
